@@ -10,7 +10,7 @@ import os
 
 from . import facts
 from .facts import AnalysisBroken, fn_body, fn_params, where
-from .terms import (C, ZERO, ONE, UNINIT, Dom, INF, Lin, lin_of, term_of_lin, is_const, mk_byte, mk_cat,
+from .terms import (maybe_uninit, C, ZERO, ONE, UNINIT, Dom, INF, Lin, lin_of, term_of_lin, is_const, mk_byte, mk_cat,
                     to_bytes, mk_sext, short, BOOL)
 from .state import State, Obj, Unsupported
 from . import mem
@@ -501,6 +501,11 @@ class Interp(object):
                 self.uninit_reads += 1
                 self.oblige(False, 'uninit-read', node, 'read of uninitialised %s bytes of %s at offset %s' % (ty.size, oid, short(off)))
                 t = ('sym', st.fresh('uninit'), ty.minmax()[0], ty.minmax()[1]) if ty.kind == 'int' else ('sym', 'unkptr:uninit', 0, INF)
+            elif t[0] in ('sel', 'selw', 'cat') and maybe_uninit(st.canon(t)):
+                # a getter's destination that was not initialised before the call: the getter may leave it untouched
+                self.uninit_reads += 1
+                self.oblige(False, 'uninit-read', node, 'read of %s bytes of %s at offset %s that are uninitialised unless a platform getter wrote them '
+                            '(a getter that fails, or writes fewer bytes, leaves its destination untouched)' % (ty.size, oid, short(off)))
             else:
                 self.oblige(True, 'uninit-read', node, '')
             return Val(ty, t)
